@@ -201,3 +201,37 @@ V("C06-i-remove-unpaired", "C06", "C06.4", (DS, "out = self.t_eval.pop(idx), sel
 V("C06-j-end-state", "C06", "C06.1", (ITY, "    def dense_output(self):\n        return (self.initial_time + self.dTime,\n                utilities.interpolation.CubicHermiteInterp(\n                    self.initial_time,\n                    self.initial_time + self.dTime,\n                    self.initial_state,\n                    self.initial_state + self.dState,\n                    self.initial_rhs,\n                    self.final_rhs\n                ))\n\n    def step", "    def dense_output(self):\n        return (self.initial_time + self.dTime,\n                utilities.interpolation.CubicHermiteInterp(\n                    self.initial_time,\n                    self.initial_time + self.dTime,\n                    self.initial_state,\n                    self.dState,\n                    self.initial_rhs,\n                    self.final_rhs\n                ))\n\n    def step"))
 V("C06-s-reorder-sum", "C06", "silent", (ITY, "    def dense_output(self):\n        return (self.initial_time + self.dTime,\n                utilities.interpolation.CubicHermiteInterp(\n                    self.initial_time,\n                    self.initial_time + self.dTime,\n                    self.initial_state,\n                    self.initial_state + self.dState,\n                    self.initial_rhs,\n                    self.final_rhs\n                ))\n    # ---- #",
    "    def dense_output(self):\n        t_end = self.dTime + self.initial_time\n        return (t_end,\n                utilities.interpolation.CubicHermiteInterp(\n                    self.initial_time,\n                    self.dTime + self.initial_time,\n                    self.initial_state,\n                    self.dState + self.initial_state,\n                    self.initial_rhs,\n                    self.final_rhs\n                ))\n    # ---- #"))
+
+# ---- C07 -----------------------------------------------------------------------------------------
+V("C07-a-wrong-state", "C07", "C07.1", (DS, "ev_state = StateTuple(t=root, y=self.__sol(root), event=ev)", "ev_state = StateTuple(t=root, y=next_state, event=ev)"))
+V("C07-b-down-dir", "C07", "C07.3", (DS, "down & (direction < 0) |", "down & (direction > 0) |"))
+V("C07-c-raw-sort", "C07", "C07.4", (DS, "order = D.ar_numpy.argsort(D.ar_numpy.sign(t_next - t_prev) * roots)", "order = D.ar_numpy.argsort(roots)"))
+V("C07-d-pos-index", "C07", "C07.2", (DS, "last_occurrence[active_events[ev_idx]] = len(self.__events)\n                                    self.__events.append(ev_state)\n                                elif", "last_occurrence[ev_idx] = len(self.__events)\n                                    self.__events.append(ev_state)\n                                elif"))
+V("C07-e-up-class", "C07", "C07.3", (DS, "    up = ((g <= 0) & (g_new >= 0)) | ((g <= 0) & (g_cen >= 0)) | ((g_cen <= 0) & (g_new >= 0))", "    up = ((g <= 0) & (g_new >= 0)) | ((g <= 0) & (g_cen >= 0)) | ((g_cen >= 0) & (g_new >= 0))"))
+V("C07-f-no-success", "C07", "C07.3", (DS, "    up = success & up\n", "    up = up\n"))
+V("C07-g-instep-swapped", "C07", "C07.5", (DS, "                            if dTime >= 0:\n                                true_positive", "                            if dTime < 0:\n                                true_positive"))
+V("C07-h-instep-loose", "C07", "C07.5", (DS, "true_positive = (self.__t[self.counter] <= root) & (root <= prev_time + dTime)", "true_positive = (self.__t[self.counter] <= root) | (root <= prev_time + dTime)"))
+V("C07-i-event-mismatch", "C07", "C07.1", (DS, "ev_state = StateTuple(t=root, y=self.__sol(root), event=ev)", "ev_state = StateTuple(t=root, y=self.__sol(root), event=events[ev_idx])"))
+V("C07-j-either-missing", "C07", "C07.3", (DS, "either & (direction == 0))", "up & (direction == 0))"))
+V("C07-k-unguarded-append", "C07", "C07.1", (DS, "                            if true_positive:\n                                ev_state", "                            if True:\n                                ev_state"))
+V("C07-s-mask-demorgan", "C07", "silent", (DS, "    mask = (up & (direction > 0) |\n                down & (direction < 0) |\n                either & (direction == 0))", "    mask = ((direction == 0) & either) | ((direction < 0) & down) | ((direction > 0) & up)"))
+
+# ---- C08 -----------------------------------------------------------------------------------------
+V("C08-a-degenerate-bracket", "C08", "C08.3", (DS, "        [t_prev, t_next],\n        tol=None,", "        [t_prev, t_prev],\n        tol=None,"))
+V("C08-b-abs-success", "C08", "C08.1", (OPT, "        true_conv = D.ar_numpy.logical_or(bracketed, fb == 0)\n\n    if verbose:", "        true_conv = D.ar_numpy.abs(fb) <= tol\n\n    if verbose:"))
+V("C08-c-stale-interval", "C08", "C08.3", (DS, "                        prev_time = self.__t[self.counter - 1]\n", "                        prev_time = self.__t[max(self.counter - 2, 0)]\n"))
+V("C08-d-skip-events", "C08", "C08.3", (DS, "    for ev, rds in zip(events, requires_dstate):\n        ev_f.append(__get_ev_f(ev, rds))", "    for ev, rds in zip(events, requires_dstate):\n        if not rds:\n            ev_f.append(__get_ev_f(ev, rds))"))
+V("C08-e-search-before-add", "C08", "C08.2", (DS, "                    __t_interp, __y_interp = self.get_step_interpolant()\n                    self.__sol.add_interpolant(__t_interp, __y_interp)\n\n                    if events is not None:", "                    __t_interp, __y_interp = self.get_step_interpolant()\n\n                    if events is not None:"))
+V("C08-f-eval-state", "C08", "C08.3", (DS, "                return __ev(t, sol(t), **consts)", "                return __ev(t, sol(t_next), **consts)"))
+V("C08-g-scaled-tol", "C08", "C08.1", (OPT, "    true_conv = D.ar_numpy.logical_or(bracketed, fb == 0)\n\n    while", "    true_conv = D.ar_numpy.logical_or(bracketed, D.ar_numpy.abs(fb) < 1e-12)\n\n    while"))
+
+# ---- C14 -----------------------------------------------------------------------------------------
+V("C14-a-no-cond1-scalar", "C14", "C14.2", (OPT, "bisect_now = cond1 or (mflag and cond2)", "bisect_now = (mflag and cond2)"))
+V("C14-a2-no-cond1-vector", "C14", "C14.2", (OPT, "        mask = cond1\n        cond2 =", "        mask = D.ar_numpy.zeros_like(cond1)\n        cond2 ="))
+V("C14-b-no-cap", "C14", "C14.4", (OPT, "        if numiter >= 64:\n            break\n", ""))
+V("C14-b2-no-cap-vec", "C14", "C14.4", (OPT, "        conv = conv & (numiter <= 64)\n", ""))
+V("C14-c-abs-success", "C14", "C14.1", (OPT, "        return b, fa * fb <= 0\n", "        return b, D.ar_numpy.abs(fb) <= tol\n"))
+V("C14-d-vector-cond3", "C14", "C14.2", (OPT, "cond3 = D.ar_numpy.logical_and(D.ar_numpy.logical_not(mflag), D.ar_numpy.abs(s - b) >= D.ar_numpy.abs(c - d) / 2)", "cond3 = D.ar_numpy.logical_and(mflag, D.ar_numpy.abs(s - b) >= D.ar_numpy.abs(c - d) / 2)"))
+V("C14-e-eps-product", "C14", "C14.1", (OPT, "    if fa * fb > 0:\n        return", "    if fa * fb >= D.epsilon(lower_bound.dtype):\n        return"))
+V("C14-f-interval-3ab", "C14", "C14.2", (OPT, "cond1 = not ((3 * a + b) / 4 < s < b or b < s < (3 * a + b) / 4)", "cond1 = not ((3 * a + b) / 4 < s < b or b < s < (a + 3 * b) / 4)"))
+V("C14-s-cond-order", "C14", "silent", (OPT, "bisect_now = cond1 or (mflag and cond2) or (not mflag and cond3) or (mflag and cond4) or (not mflag and cond5)", "bisect_now = (mflag and (cond2 or cond4)) or (not mflag and (cond3 or cond5)) or cond1"))
